@@ -467,6 +467,37 @@ class Ctx:
             bad.update(r)
         return bad
 
+    def selftest(self, module, cfg, lines, corruptions, env=None):
+        """Binding demonstrated, not assumed: lines the trace specification ACCEPTED are corrupted in one recorded field each
+        and the specification must REJECT every corrupted line.  corruptions: [(name, fn(line) -> corrupted line or None)].
+        A corruption the specification accepts is a machinery failure (the trace spec would be vacuous in that field)."""
+        import copy
+
+        rows, names = [], {}
+        for name, fn in corruptions:
+            done = 0
+            for ln in lines:
+                c = fn(copy.deepcopy(ln))
+                if c is None:
+                    continue
+                c["oid"] = f"{ln['oid']}~{name}"
+                names[c["oid"]] = name
+                rows.append(c)
+                done += 1
+                if done >= 2:
+                    break
+        if not rows:
+            return
+        before = self.cov["traces_validated_against_impl"]
+        bad = self.tlc_validate(module, cfg, rows, name=f"selftest_{module}", env=env)
+        self.cov["traces_validated_against_impl"] = before
+        self.cov["tlc_runs"] = [r for r in self.cov["tlc_runs"] if r.get("cfg") != f"selftest_{module}"]
+        missed = sorted({names[o] for o in names if o not in bad})
+        self.cov["binding_selftest"] = dict(corrupted_lines=len(rows), rejected=len([o for o in names if o in bad]),
+                                            fields=sorted(set(names.values())))
+        if missed:
+            raise MachineryError(f"binding self-test: {module} accepted lines corrupted in {missed}")
+
     def pmap(self, fn, items, **kw):
         return pmap(fn, items, **kw)
 
